@@ -772,8 +772,12 @@ func (lb *LoadBalancer) recordRequestMetrics(backend *Backend, statusCode int, s
 	lb.metricsCollector.RecordResponse(success, responseTime)
 	lb.metricsCollector.RecordBackendRequest(backend.Name, success, responseTime)
 
+	// A request its client abandoned (disconnect mid-request or mid-response) ends as a failed
+	// request, but it says nothing about the backend and is no strike towards passive ejection
+	clientGone := r.Context().Err() != nil
+
 	// Check if the backend returned an error status code (5xx) and passive health checks are enabled
-	if statusCode >= 500 && lb.healthChecks.passiveEnabled {
+	if statusCode >= 500 && lb.healthChecks.passiveEnabled && !clientGone {
 		lb.handlePassiveHealthCheck(backend, statusCode, r)
 		return
 	}
